@@ -257,6 +257,29 @@ def peaked_cubic(rng):
     return CubicBezier(*p)
 
 
+def teardrop(rng):
+    """a curve that comes back to its own start: a one-cubic loop, or a quadratic that goes out and straight back (long, although its ends coincide)"""
+    a = P(rng.uniform(-100, 100), rng.uniform(-100, 100)) if rng.random() < 0.6 else P(float(rng.randint(-100, 100)), float(rng.randint(-100, 100)))
+    w, h = rng.uniform(15, 150), rng.uniform(15, 150)
+    if rng.random() < 0.75: c = CubicBezier(a, a + P(w, h * rng.uniform(0.2, 1)), a + P(-w, h), P(a.x, a.y))
+    else: c = QuadraticBezier(a, a + P(w, h), P(a.x, a.y))
+    if rng.random() < 0.5: c = c.rotated(a, rng.uniform(0, 6.283)); c.points[-1] = P(c.points[0].x, c.points[0].y)
+    return c
+
+
+def teardrop_path(rng):
+    """a path with a teardrop hanging on one of its nodes (a node-to-itself curve between ordinary segments)"""
+    t = teardrop(rng); a = t.points[0]
+    pre = [Line(a + P(-rng.uniform(20, 90), -rng.uniform(5, 60)), P(a.x, a.y))] if rng.random() < 0.7 else []
+    e = a + P(rng.uniform(20, 90), -rng.uniform(5, 60))
+    post = [rng.choice([Line(P(a.x, a.y), e), QuadraticBezier(P(a.x, a.y), a.lerp(e, 0.5) + P(0.0, -20.0), e)])] if rng.random() < 0.7 or not pre else []
+    segs = pre + [t] + post
+    closed = False
+    if len(segs) == 3 and rng.random() < 0.5: segs.append(Line(segs[-1].end, segs[0].start)); closed = True
+    p = BezierPath.fromSegments(segs); p.closed = closed
+    return p
+
+
 def dominant_path(rng, closed=False):
     """one long line followed/preceded by several short ones: the per-segment share of the path parameter is very uneven"""
     k = rng.randint(4, 9)
